@@ -262,15 +262,11 @@ class Multisphere(ScatteringTheory):
         # calculate forward scattering
         asm_fwd = _asm_far(0., 0., amn, lmax)
 
-        # at theta = phi = 0 the matrix returned by asm relates the (x, y)
-        # components of the incident and scattered amplitudes as they are.
-        # (Flipping the sign of the y components on the way in and out, as
-        # was done here, evaluates the extinction for the mirror-image
-        # polarization (px, -py): not invariant under rotating cluster and
-        # polarization together, and negative absorption for clusters of
-        # non-absorbing spheres.)
-        ascat = np.dot(asm_fwd, pol)
-        cext = 4. * np.pi / medium_wavevec**2 * np.dot(pol, ascat).real
+        # at theta = phi = 0 parallel is x and perpendicular is -y
+        ainc_sph = pol * np.array([1., -1.])
+        ascat_sph = np.dot(asm_fwd, ainc_sph) * np.array([1., -1.])
+        # ascat_sph are now the x and y components of the scattered amplitude
+        cext = 4. * np.pi / medium_wavevec**2 * np.dot(pol, ascat_sph).real
         return cext
 
     def raw_scat_matrs(self, scatterer, pos, medium_wavevec, medium_index):
@@ -411,6 +407,12 @@ def _asm_far(theta, phi, amn, lmax):
     """
     asm = np.roll(uts_scsmfo.asm(amn, lmax, theta, phi),
                   -1).reshape((2,2)) * -0.5 #correction factor
+    # SCSMFO's matrix relates (theta, phi) components. HoloPy's amplitude
+    # scattering matrices relate components parallel and perpendicular to the
+    # scattering plane (Bohren & Huffman), and perpendicular = -phi: the
+    # off-diagonal elements S3 and S4 change sign
+    asm[0, 1] *= -1
+    asm[1, 0] *= -1
     return asm
 
 def _integrate4pi(integrand):
